@@ -1455,3 +1455,31 @@ def project_on(f, start_re, tracked, why):
     f.body = '{\n' + proj(inner) + '\n}'
     f.rewrites.append(('R13', f'projection slice from /{start_re}/ on {sorted(tracked)}: {len(dropped)} statements binding other locals dropped', why))
     return dropped
+
+
+def unfind_let_else(f):
+    """R6: `let Some(P) = RECV.iter().find(|e| COND) else { ELSE };` -> first-match index loop (COND verbatim), then `let Some(i) = idx else { ELSE }; let P = &RECV[i];`"""
+    n = 0
+    while True:
+        m = re.search(r'let Some\((\w+)\) = ([\w.\s]+?)\s*\.\s*iter\(\)\s*\.\s*find(\()', f.body)
+        if not m:
+            break
+        close = match_brace(f.body, m.start(3))
+        mi = re.match(r'\s*\|\s*(&?\w+)\s*\|\s*(.*)$', f.body[m.start(3) + 1:close], flags=re.S)
+        me = re.match(r'\s*else\s*(\{)', f.body[close + 1:])
+        if not mi or not me:
+            break
+        eo = close + 1 + me.start(1)
+        ec = match_brace(f.body, eo)
+        ms = re.match(r'\s*;', f.body[ec + 1:])
+        if not ms:
+            break
+        recv, p, e, cond = ''.join(m.group(2).split()), m.group(1), mi.group(1).lstrip('&'), mi.group(2).strip().rstrip(',').strip()
+        k = f'fd{n}_'
+        code = (f'let mut i_{k}: Option<usize> = None; for {k} in 0..{recv}.len() {{ let {e} = &{recv}[{k}]; if i_{k}.is_none() && ({cond}) {{ i_{k} = Some({k}); }} }} '
+                f'let Some(j_{k}) = i_{k} else {f.body[eo:ec + 1]}; let {p} = &{recv}[j_{k}];')
+        f.body = f.body[:m.start()] + code + f.body[ec + 1 + ms.end():]
+        n += 1
+    if n:
+        f.rewrites.append(('R6', f'{n}x `let Some(p) = v.iter().find(|e| COND) else {{..}};` -> first-match index loop (COND verbatim)', ''))
+    return f
